@@ -193,7 +193,8 @@ def requests_for(res):
         syms = res["params"] if ren is None else ren
         pts = [{"env": [[s, v] for s, v in zip(syms, p)], "args": list(p[: len(syms)])} for p in res["points"]]
         reqs.append({"op": "c06", "prog": res["prog"], "fn": res["q"],
-                     "margs": None if ren is None else [["sym", s] for s in ren], "points": pts})
+                     "margs": None if ren is None else [["sym", s] for s in ren], "points": pts,
+                     **({"cb": [{"b": c["b"], "rest": c["rest"]} for c in res.get("cb", [])]} if ren is None else {})})
     return reqs
 
 
@@ -347,6 +348,42 @@ def judge_fn(ctx, job, res, resps):
                 ctx.hist["struct:differs"] = ctx.hist.get("struct:differs", 0) + 1
                 if len(ctx.extra_cov.setdefault("struct_differs_samples", [])) < 3:
                     ctx.extra_cov["struct_differs_samples"].append({"src": res["src"], "rename": ren, "real": ob["srepr"], "model": ms})
+        # the entry points the theorems are stated over (trBody / trLoop / trExpr / trArgs), run directly by the driver:
+        # they must give what `fnToSympy` gives (and that is what was just compared with the real result)
+        ent = resp.get("entry")
+        if ren is None and ent is not None and "ok" in resp["tr"] and not ent["other_params"]:
+            for k in ("body", "loop", "expr"):
+                if ent[k] is None:
+                    continue
+                ctx.hist["entry:" + k] = ctx.hist.get("entry:" + k, 0) + 1
+                if ent[k] != resp["tr"]:
+                    ctx.add_drift(case, resp["tr"], ent[k], f"Lean {k} entry point differs from fnToSympy")
+            if ent["args"] is not None:
+                ctx.hist["entry:args"] = ctx.hist.get("entry:args", 0) + 1
+                if "ok" not in ent["args"]:
+                    ctx.add_drift(case, resp["tr"], ent["args"], "a call was translated although its arguments are not")
+        # helper level: the real `_check_branch` / `_always_returns` on every (branch, rest) pair of this function
+        # against the model's `branchOk`, the generated conditions (`checkBranchG`) and `bodyReturns`; the `ast` class of
+        # every top-level statement against the class the model constructor stands for
+        if ren is None and res.get("cb") and resp.get("cb"):
+            for c, mc in zip(res["cb"], resp["cb"]):
+                ctx.hist["helper:_check_branch:" + ("accepts" if c["real_ok"] else "refuses")] = \
+                    ctx.hist.get("helper:_check_branch:" + ("accepts" if c["real_ok"] else "refuses"), 0) + 1
+                if not (mc["ok"] == mc["gen"] == c["real_ok"]) or (c["real_ret"] is not None and mc["ret"] != c["real_ret"]):
+                    ctx.add_drift(case, {"_check_branch": c["real_ok"], "_always_returns": c["real_ret"]}, mc,
+                                  "real _check_branch / _always_returns vs Lean branchOk / checkBranchG / bodyReturns")
+        if ren is None and resp.get("classes") is not None and res.get("stmt_classes"):
+            canon = {"Expr": "Pass", "Import": "ImportFrom"}
+            for rc, mcls in zip(res["stmt_classes"], resp["classes"]):
+                ctx.hist["helper:stmt_class"] = ctx.hist.get("helper:stmt_class", 0) + 1
+                if mcls == "<any other class>":
+                    continue  # encoder: a statement kind (or an Assign target shape) the model has no constructor for
+                if canon.get(rc, rc) != mcls:
+                    ctx.add_drift(case, rc, mcls, "ast class of a statement vs the class its model constructor stands for")
+            if res.get("ret_class") and resp.get("ret_class") and resp["ret_class"] != "<any other class>":
+                ctx.hist["helper:expr_class"] = ctx.hist.get("helper:expr_class", 0) + 1
+                if res["ret_class"] != resp["ret_class"]:
+                    ctx.add_drift(case, res["ret_class"], resp["ret_class"], "ast class of the returned expression vs the model constructor's")
         # the Lean Python semantics against CPython
         if ren is None:
             for i, (a, b) in enumerate(zip(resp["py"], py)):
